@@ -116,7 +116,7 @@ def afterLoad (s : St) : Bool :=
 
 /-- the state after `uApplyPatch`, `finalCheck` and the status update. -/
 def finishedOk (s s' : St) : Bool :=
-  s'.locked && s'.status == .byUtls && s'.hsDone == s.hsDone && s'.hasCache == s.hasCache
+  (s'.state != .pskAllSet || s'.binderFresh) && s'.locked && s'.status == .byUtls && s'.hsDone == s.hsDone && s'.hasCache == s.hasCache
   && s'.tRef == s.tRef && s'.pRef == s.pRef && s'.lT == s.lT && s'.lP == s.lP && s'.raw == s.raw
   && s'.sharesFilled == s.sharesFilled && s'.keysHeld == s.keysHeld && s'.helloShares == s.helloShares && s'.helloTS == s.helloTS
   && sameObjs s s' && s'.helloTicket == s.helloTicket && s'.tracker == s.tracker
@@ -142,7 +142,7 @@ def sessionView (s : St) : CState × Bool × Option Ref × Option Ref × TExt ×
 
 /-- the state after the tail of a build that started in a `mid` state `s`. -/
 def tailOk (load : Bool) (s s' : St) : Bool :=
-  !s'.hsDone && s'.hasCache == s.hasCache && s'.tRef == s.tRef && s'.pRef == s.pRef && s'.lT == s.lT && s'.lP == s.lP
+  (!load || s'.state != .pskAllSet || s'.binderFresh) && !s'.hsDone && s'.hasCache == s.hasCache && s'.tRef == s.tRef && s'.pRef == s.pRef && s'.lT == s.lT && s'.lP == s.lP
   && s'.sharesFilled == s.sharesFilled && s'.keysHeld == s.keysHeld && s'.raw == some (slots s')
   && (if load then
         s'.locked && s'.status == .byUtls
@@ -169,9 +169,10 @@ def tailFail (cfg : Cfg) (s s' : St) (o : Outcome) : Bool :=
   && s'.state == .noSession && s'.status == .notBuilt && !s'.locked && !s'.hsDone && s'.hasCache == s.hasCache && sameObjs s s'
   && s'.tRef == s.tRef && s'.pRef == s.pRef && s'.keysHeld == s.keysHeld && s'.sharesFilled == s.sharesFilled
 
-/-- result of a build on a locked parrot connection (see `tail_locked`). -/
-def lockedSame (cfg : Cfg) (s s' : St) : Bool :=
-  inv cfg s' && sessionView s' == sessionView s && s'.hsDone == s.hsDone && s'.hasCache == s.hasCache
+/-- result of a build on a locked parrot connection (see `tail_locked`): no session field changes;
+a full build recomputes the binder over the bytes it marshalled. -/
+def lockedSame (cfg : Cfg) (load : Bool) (s s' : St) : Bool :=
+  (!load || s'.state != .pskAllSet || s'.binderFresh) && inv cfg s' && sessionView s' == sessionView s && s'.hsDone == s.hsDone && s'.hasCache == s.hasCache
   && s'.status == s.status && s'.tracker == s.tracker && s'.keysHeld == s.keysHeld && s'.sharesFilled == s.sharesFilled
   && s'.lT == s.lT && s'.lP == s.lP && sameObjs s s' && s'.tRef == s.tRef && s'.pRef == s.pRef
 
@@ -180,7 +181,7 @@ def PresetOf (cfg : Cfg) (s s1 : St) : Prop :=
   mid cfg s1 = true ∧ (if cfg.custom = true then s1 = s else presetOk cfg s s1 = true)
 
 def BuiltOk (cfg : Cfg) (load : Bool) (s s' : St) : Prop :=
-  (s.locked = true ∧ lockedSame cfg s s' = true) ∨
+  (s.locked = true ∧ lockedSame cfg load s s' = true) ∨
   (s.status = .notBuilt ∧ ∃ s1, PresetOf cfg s s1 ∧ tailOk load s1 s' = true)
 
 def BuiltFail (cfg : Cfg) (s s' : St) (o : Outcome) : Prop :=
@@ -208,7 +209,7 @@ def hsTail (cfg : Cfg) (lr : LoadRes) (s : St) : R :=
     let ts := s.helloTS || usable
     let t : Slot := if !ts then .absent else if res == .s12 then .tok .cache else .empty
     let p : Slot := if res == .s13 then .tok .cache else .absent
-    okR { s with raw := some (t, p), helloTS := ts, hsDone := true }
+    okR { s with raw := some (t, p), helloTS := ts, hsDone := true, binderFresh := true }
 
 theorem handshake_eq (cfg : Cfg) (lr : LoadRes) (s : St) :
     handshake cfg lr s = (buildHandshakeState cfg true lr s).andThen (hsTail cfg lr) := rfl
@@ -236,7 +237,8 @@ def Cfg.WF (cfg : Cfg) : Bool := cfg.skipOnNil || (cfg.specT == cfg.specP)
 
 /-- invariant of (state, documentation automaton) pairs along documented call orders. -/
 def pinvRest (cfg : Cfg) (s : St) (d : Doc) : Bool :=
-  d.cache == usable cfg s
+  (!d.done || s.state != .pskAllSet || s.binderFresh)
+  && d.cache == usable cfg s
   && d.done == s.hsDone
   && (if cfg.golang then (!d.built || s.status == .byGo) else d.built == s.locked)
   && (!(d.built && d.injected) || d.fresh)
